@@ -5,12 +5,13 @@ rows = []
 for p in sorted(glob.glob('/verif/seeded/*/meta.json')):
     m = json.load(open(p)); name = p.split('/')[-2]
     rows.append((name, m))
-lines = ['| seeded change | property | round | what it needs to manifest | confirmed (suite passes, demo fails) | caught by (quick tier) | first failure signatures |', '|---|---|---|---|---|---|---|']
+lines = ['| seeded change | property | round | what it needs to manifest | confirmed (suite passes, demo fails) | caught when it arrived (before any strengthening for it) | caught by (quick tier, final harness) | first failure signatures |', '|---|---|---|---|---|---|---|---|']
 caught = 0
 for name, m in rows:
     cb = ', '.join(m.get('caught_by') or []) or '**not caught**'
     if m.get('caught_by'): caught += 1
-    lines.append('| %s | %s | %s | %s | %s | %s | %s |' % (name, m['property'], m.get('round', 1), (m.get('needs_to_manifest') or '').replace('|', '/'), 'yes' if m.get('confirmed') else 'NO', cb, ', '.join('`%s`' % k for k in (m.get('first_violation_keys') or [])[:2])))
+    first = {True: 'yes', False: 'no', None: 'see §4b'}[m.get('caught_before_strengthening')]
+    lines.append('| %s | %s | %s | %s | %s | %s | %s | %s |' % (name, m['property'], m.get('round', 1), (m.get('needs_to_manifest') or '').replace('|', '/'), 'yes' if m.get('confirmed') else 'NO', first, cb, ', '.join('`%s`' % k for k in (m.get('first_violation_keys') or [])[:2])))
 summary = '%d seeded changes, all written by independent sub-agents that saw only the property text; %d confirmed; %d caught by at least one quick check.' % (len(rows), sum(1 for _, m in rows if m.get('confirmed')), caught)
 s = open('/verif/DESIGN.md').read()
 block = '<!-- SEEDTABLE BEGIN -->\n' + summary + '\n\n' + '\n'.join(lines) + '\n<!-- SEEDTABLE END -->'
